@@ -1,0 +1,138 @@
+//go:build verif
+
+// Contracts for the set-up part of the CORS middleware (property C19): New's configuration loop, normalizeOrigin and
+// the two scheme/domain helpers of utils.go. Comment-only file, seen with -tags verif only.
+//
+// What the handler closure (New$1, zz_contracts_verif.go) relies on is established here:
+//   * every exact entry of allowOrigins is the normalisation lower(scheme "://" host) of a configured entry,
+//   * every wildcard entry "scheme://*.domain" is stored as prefix lower(scheme) "://" and suffix "." domain,
+//     so that (subdomain).match accepts only scheme://<anything>.domain,
+//   * allowAllOrigins is set exactly when nothing is configured or "*" is listed, and then AllowCredentials panics.
+// net/url is an assumed dependency: urlOK/urlScheme/urlHost/urlPath/urlQuery/urlFragment/urlHasUser are its view of a
+// string (deps/mw_C16.spec), with positional facts (scheme-is-lowered-head, host-needs-authority, schemeless-host-needs-authority,
+// host-only-url-has-no-further-double-slash, host-starts-the-authority) stated there.
+//
+// Obligations that FAIL on the unchanged code for a genuine reason (replays: c19_wildcard_leading_space_test.go,
+// c19_wildcard_userinfo_test.go):
+//   New/safety:bounds:strslice#3, New/inv:loop1.preserve:wildcard-entries-traced#2, ...:every-entry-listed#2,
+//   ...:wildcard-prefix-is-one-scheme#2
+//                               a wildcard entry with leading blanks is split at the index the marker "://*." had in the
+//                               UNTRIMMED entry: start-up panic (slice bounds), or prefix "https://." / suffix "example.com"
+//                               (https://.evilexample.com is allowed, https://a.example.com is not)
+//   normalizeOrigin/post:valid-has-no-userinfo
+//                               "https://*.cdn@example.com" is accepted, the userinfo ".cdn" is dropped and the entry is
+//                               stored with suffix "example.com" (no dot): https://evilexample.com is allowed
+
+package cors
+
+//@ props C19
+
+// ---------------------------------------------------------------------------------------------
+// utils.go
+// ---------------------------------------------------------------------------------------------
+// normOf(t): what normalizeOrigin makes of a valid entry t. validEntry(t): what it accepts.
+//@ macro normOf(t) = lower(urlScheme(t) + "://" + urlHost(t))
+//@ macro validEntry(t) = urlOK(t) && !strContains(urlHost(t), "*") && urlHost(t) != "" && (urlPath(t) == "" || urlPath(t) == "/") && urlQuery(t) == "" && urlFragment(t) == ""
+
+// layout(t): where scheme and host of a valid entry sit in its text (the positional facts assumed of url.Parse,
+// re-exported for New, which sees only this contract): a scheme is the lower-cased text before the first ':' and is
+// followed by "//"; without a scheme the text starts with "//"; no second "//" follows; without userinfo the host
+// starts right behind "scheme://".
+//@ macro authStart(t) = ite(urlScheme(t) == "", 2, len(urlScheme(t)) + 3)
+//@ macro layout(t) = (urlScheme(t) != "" ==> len(urlScheme(t)) + 3 < len(t) && t[len(urlScheme(t))] == ':' && t[len(urlScheme(t))+1] == '/' && t[len(urlScheme(t))+2] == '/' && urlScheme(t) == lower(t[:len(urlScheme(t))]) && forall(k, 0, len(urlScheme(t)), t[k] != ':' && t[k] != '/')) &&
+//@ ..   (urlScheme(t) == "" ==> len(t) > 2 && t[0] == '/' && t[1] == '/') &&
+//@ ..   forall(k, authStart(t), len(t) - 1, !(t[k] == '/' && t[k+1] == '/')) &&
+//@ ..   (urlScheme(t) != "" && !urlHasUser(t) && t[len(urlScheme(t))+3] != '%' ==> urlHost(t)[0] == t[len(urlScheme(t))+3])
+
+//@ func normalizeOrigin
+//@   pure
+//@   ensures valid-only-host-only-url: result0 ==> validEntry(origin)
+//@   ensures valid-has-no-userinfo: result0 ==> !urlHasUser(origin)
+//@   ensures host-only-url-without-userinfo-is-valid: validEntry(origin) && !urlHasUser(origin) ==> result0
+//@   ensures normalised-is-lower-scheme-host: result0 ==> result1 == normOf(origin)
+//@   ensures invalid-is-empty: !result0 ==> result1 == ""
+//@   ensures valid-entry-layout: result0 ==> layout(origin)
+//@   ensures normalised-parts: result0 ==> len(result1) == len(urlScheme(origin)) + 3 + len(urlHost(origin)) && result1[:len(urlScheme(origin))] == lower(urlScheme(origin)) && result1[len(urlScheme(origin)):len(urlScheme(origin))+3] == "://" && result1[len(urlScheme(origin))+3:] == lower(urlHost(origin))
+//@   ensures normalised-prefix: result0 ==> result1[:len(urlScheme(origin))+3] == lower(urlScheme(origin)) + "://"
+//@   ensures normalised-scheme-has-no-separator: result0 ==> forall(k, 0, len(urlScheme(origin)), result1[k] != ':' && result1[k] != '/')
+//@   ensures normalised-is-lower: result0 ==> result1 == lower(result1)
+//@   ensures single-separator-behind-scheme: result0 ==> forall(m, 0, len(origin) - 2, origin[m] == ':' && origin[m+1] == '/' && origin[m+2] == '/' ==> m == len(urlScheme(origin)))
+//@   ensures host-byte-behind-separator: result0 && urlScheme(origin) != "" && !urlHasUser(origin) && origin[len(urlScheme(origin))+3] != '%' ==> result1[len(urlScheme(origin))+3] == lower(origin)[len(urlScheme(origin))+3]
+
+// matchScheme: both strings have a ':' and the texts before the first ':' are the same.
+//@ macro hasColonAt(s, i) = 0 <= i && i < len(s) && s[i] == ':' && forall(k, 0, i, s[k] != ':')
+//@ func matchScheme
+//@   pure
+//@   ensures needs-both-schemes: result ==> exists(i, 0, len(domain), exists(j, 0, len(pattern), hasColonAt(domain, i) && hasColonAt(pattern, j) && domain[:i] == pattern[:j]))
+//@   ensures same-scheme-matches: forall(i, 0, len(domain), forall(j, 0, len(pattern), hasColonAt(domain, i) && hasColonAt(pattern, j) && domain[:i] == pattern[:j] ==> result))
+
+// normalizeDomain: "http://" then "https://" are stripped, then (unless the rest is empty or an IPv6 literal) the
+// text from the first ':' on.
+//@ macro stripPfx(s, p) = ite(len(s) >= len(p) && s[:len(p)] == p, s[len(p):], s)
+//@ macro noScheme(s) = stripPfx(stripPfx(s, "http://"), "https://")
+//@ func normalizeDomain
+//@   pure
+//@   ensures prefix-of-schemeless: len(result) <= len(noScheme(input)) && result == noScheme(input)[:len(result)]
+//@   ensures ipv6-or-empty-untouched: len(noScheme(input)) == 0 || noScheme(input)[0] == '[' ==> result == noScheme(input)
+//@   ensures cut-at-first-colon: len(noScheme(input)) > 0 && noScheme(input)[0] != '[' ==> forall(k, 0, len(result), result[k] != ':') && (len(result) < len(noScheme(input)) ==> noScheme(input)[len(result)] == ':')
+
+// ---------------------------------------------------------------------------------------------
+// cors.go: New, the set-up part
+// ---------------------------------------------------------------------------------------------
+// A wildcard entry e has the marker "://*." at i; the '*' is taken out (destar), blanks are trimmed, the rest is
+// normalised like an exact entry and split behind "scheme://".
+//@ macro blank() = ' '
+//@ macro destar(e, i) = e[:i+3] + e[i+4:]
+//@ macro markerAt(e) = strIndex(e, "://*.")
+//@ macro wildText(e) = trimmed(destar(e, markerAt(e)), blank())
+//@ macro exactFrom(x, e) = markerAt(e) == -1 && validEntry(trimmed(e, blank())) && x == normOf(trimmed(e, blank()))
+//@ macro wildFrom(p, s, e) = markerAt(e) >= 0 && validEntry(wildText(e)) && p == lower(urlScheme(wildText(e))) + "://" && s == lower(urlHost(wildText(e)))
+// sdShape(p, s): p is "scheme://" (no ':' or '/' inside the scheme), s starts with '.', both in lower case. With it
+// sdMatch(p, s, o) says: o is scheme "://" x s with the last label of x ending right before a '.'.
+//@ fn sdShape(p string, s string) bool = len(p) > 3 && p[len(p)-3:] == "://" && forall(k, 0, len(p)-3, p[k] != ':' && p[k] != '/') && len(s) > 0 && s[0] == '.' && p == lower(p) && s == lower(s)
+//@ macro exactTraced(n) = forall(k, 0, len(allowOrigins), exists(j, 0, n, exactFrom(allowOrigins[k], cfg.AllowOrigins[j])))
+//@ macro wildTraced(n) = forall(k, 0, len(allowSOrigins), exists(j, 0, n, wildFrom(allowSOrigins[k].prefix, allowSOrigins[k].suffix, cfg.AllowOrigins[j])))
+//@ macro wildShaped() = forall(k, 0, len(allowSOrigins), sdShape(allowSOrigins[k].prefix, allowSOrigins[k].suffix))
+//@ macro exactLower() = forall(k, 0, len(allowOrigins), allowOrigins[k] == lower(allowOrigins[k]))
+//@ macro entryListed(e) = (markerAt(e) == -1 ==> exists(k, 0, len(allowOrigins), allowOrigins[k] == normOf(trimmed(e, blank())))) && (markerAt(e) >= 0 ==> exists(k, 0, len(allowSOrigins), allowSOrigins[k].prefix == lower(urlScheme(wildText(e))) + "://" && allowSOrigins[k].suffix == lower(urlHost(wildText(e)))))
+//@ macro nothingConfigured() = len(cfg.AllowOrigins) == 0 && cfg.AllowOriginsFunc == nil
+
+//@ macro lead(e, i) = trimLead(destar(e, i), blank())
+//@ macro cur() = cfg.AllowOrigins[rangeindex+1]
+//@ func New panics
+// the package-level default is an object of its own (not the configuration copy New allocates)
+//@   requires package-default-allocated: allocated(ConfigDefault)
+// lemmas for a wildcard entry (i != -1): the marker's "://" and the '.' behind the '*' survive the removal of the '*'
+// (at the Trim call: s is the entry without the '*') and the trimming, lead(...) bytes further left (at the
+// normalizeOrigin call: there `origin` is the callee's formal, i.e. the trimmed text; the entry is cur()).
+//@   atcall @utils.Trim: marker-bytes: i != -1 ==> origin[i] == ':' && origin[i+1] == '/' && origin[i+2] == '/' && origin[i+4] == '.'
+//@   atcall @utils.Trim: marker-bytes-without-star: i != -1 ==> s == destar(origin, i) && s[i] == ':' && s[i+1] == '/' && s[i+2] == '/' && s[i+3] == '.'
+//@   atcall normalizeOrigin: marker-not-trimmed: i != -1 ==> lead(cur(), i) <= i && i + 4 <= lead(cur(), i) + len(origin)
+//@   atcall normalizeOrigin: marker-bytes-trimmed: i != -1 ==> origin[i-lead(cur(), i)] == ':' && origin[i-lead(cur(), i)+1] == '/' && origin[i-lead(cur(), i)+2] == '/' && origin[i-lead(cur(), i)+3] == '.'
+//@   loop 1
+//@     invariant index-in-range: rangeindex < len(cfg.AllowOrigins)
+//@     invariant no-star-so-far: forall(k, 0, rangeindex + 1, cfg.AllowOrigins[k] != "*")
+//@     invariant lists-are-own-storage: arr(allowOrigins) != arr(cfg.AllowOrigins)
+//@     invariant exact-entries-traced: exactTraced(rangeindex + 1)
+//@     invariant exact-entries-lower: exactLower()
+//@     invariant one-list-element-per-entry: len(allowOrigins) + len(allowSOrigins) == rangeindex + 1
+//@     invariant every-entry-listed: forall(j, 0, rangeindex + 1, entryListed(cfg.AllowOrigins[j]))
+//@     invariant wildcard-entries-traced: wildTraced(rangeindex + 1)
+//@     invariant wildcard-prefix-ends-with-separator: forall(k, 0, len(allowSOrigins), len(allowSOrigins[k].prefix) > 3 && allowSOrigins[k].prefix[len(allowSOrigins[k].prefix)-3:] == "://")
+//@     invariant wildcard-prefix-is-one-scheme: forall(k, 0, len(allowSOrigins), forall(m, 0, len(allowSOrigins[k].prefix)-3, allowSOrigins[k].prefix[m] != ':' && allowSOrigins[k].prefix[m] != '/'))
+//@     invariant wildcard-suffix-starts-with-dot: forall(k, 0, len(allowSOrigins), len(allowSOrigins[k].suffix) > 0 && allowSOrigins[k].suffix[0] == '.')
+//@     invariant wildcard-prefix-lower: forall(k, 0, len(allowSOrigins), allowSOrigins[k].prefix == lower(allowSOrigins[k].prefix))
+//@     invariant wildcard-suffix-lower: forall(k, 0, len(allowSOrigins), allowSOrigins[k].suffix == lower(allowSOrigins[k].suffix))
+//@     invariant wildcard-entries-shaped: wildShaped()
+//@   ensures all-origins-iff-unconfigured-or-star: allowAllOrigins <==> nothingConfigured() || exists(j, 0, len(cfg.AllowOrigins), cfg.AllowOrigins[j] == "*")
+//@   ensures credentials-with-all-origins-panics: !(cfg.AllowCredentials && allowAllOrigins)
+//@   ensures one-list-element-per-entry: !allowAllOrigins ==> len(allowOrigins) + len(allowSOrigins) == len(cfg.AllowOrigins)
+//@   ensures configuration-kept: len(config) > 0 ==> cfg.AllowOrigins == old(config[0].AllowOrigins) && cfg.AllowOriginsFunc == old(config[0].AllowOriginsFunc) && cfg.AllowCredentials == old(config[0].AllowCredentials) && cfg.AllowHeaders == old(config[0].AllowHeaders) && cfg.ExposeHeaders == old(config[0].ExposeHeaders) && cfg.MaxAge == old(config[0].MaxAge) && cfg.AllowPrivateNetwork == old(config[0].AllowPrivateNetwork) && cfg.Next == old(config[0].Next) && (len(old(config[0].AllowMethods)) > 0 ==> cfg.AllowMethods == old(config[0].AllowMethods))
+//@   ensures default-methods: len(config) > 0 && len(old(config[0].AllowMethods)) == 0 ==> cfg.AllowMethods == ConfigDefault.AllowMethods
+//@   ensures default-configuration: len(config) == 0 ==> cfg.AllowOrigins == old(ConfigDefault.AllowOrigins) && cfg.AllowCredentials == old(ConfigDefault.AllowCredentials) && cfg.AllowMethods == ConfigDefault.AllowMethods
+//@   ensures handler-made: result != nil
+//@   ensures every-entry-listed: !allowAllOrigins ==> forall(j, 0, len(cfg.AllowOrigins), entryListed(cfg.AllowOrigins[j]))
+//@   ensures exact-entries-traced: exactTraced(len(cfg.AllowOrigins))
+//@   ensures exact-entries-lower: exactLower()
+//@   ensures wildcard-entries-traced: wildTraced(len(cfg.AllowOrigins))
+//@   ensures wildcard-entries-shaped: wildShaped()
